@@ -22,11 +22,15 @@ def p_typename(tn) -> M.Type:
     return M.Type(tuple(tn.namespaces), name, tuple(p_typename(i) for i in tn.instantiations))
 
 
-def _ptr(t) -> str:
-    marks = [m for m in (t.is_shared_ptr, t.is_ptr, t.is_ref) if m]
-    if len(marks) > 1:
-        raise ValueError("more than one pointer marker on %r" % (t,))
-    return marks[0] if marks else ''
+def _ptr(t, problems=None) -> str:
+    marks = []
+    for attr, want in (('is_shared_ptr', '*'), ('is_ptr', '@'), ('is_ref', '&')):
+        v = getattr(t, attr)
+        if v:
+            marks.append(v if v == want else '%s=%s' % (attr, v))
+    if len(marks) > 1 and problems is not None:
+        problems.append("more than one pointer marker on %s: %r" % (t.typename.name, marks))
+    return ''.join(marks)
 
 
 def _strip(t: M.Type) -> M.Type:
@@ -45,12 +49,12 @@ def p_type(t, problems=None) -> M.Type:
             if [_strip(a) for a in targs] != inst:
                 problems.append("templated type %s: typename.instantiations %r differ from "
                                 "template_params %r" % (tn.name, inst, targs))
-        return M.Type(tuple(tn.namespaces), tn.name, targs, bool(t.is_const), _ptr(t))
+        return M.Type(tuple(tn.namespaces), tn.name, targs, bool(t.is_const), _ptr(t, problems))
     if isinstance(t, parser.Type):
         base = p_typename(t.typename)
         if problems is not None and bool(t.is_basic) != (not base.ns and base.name in M.BASIC):
             problems.append("type %s: is_basic=%r" % (base.name, t.is_basic))
-        return M.Type(base.ns, base.name, base.targs, bool(t.is_const), _ptr(t))
+        return M.Type(base.ns, base.name, base.targs, bool(t.is_const), _ptr(t, problems))
     if isinstance(t, parser.Typename):
         return p_typename(t)
     raise TypeError("not a type node: %r (%s)" % (t, type(t).__name__))
@@ -130,6 +134,34 @@ def p_class(c, problems, path) -> M.Class:
     return M.Class(c.name, tuple(members), p_template(c.template), bool(c.is_virtual), parent)
 
 
+def p_item(it, problems, path):
+    """Project one non-namespace item of a scope."""
+    parser = _gt()
+    if isinstance(it, parser.Class):
+        return p_class(it, problems, path)
+    if isinstance(it, parser.ForwardDeclaration):
+        if it.name != it.typename.name:
+            problems.append("forward declaration name %r vs typename %r" %
+                            (it.name, it.typename.name))
+        return M.Fwd(p_typename(it.typename), bool(it.is_virtual),
+                     p_type(it.parent_type, problems) if it.parent_type else None)
+    if isinstance(it, parser.Include):
+        return M.Include(str(it.header))
+    if isinstance(it, parser.TypedefTemplateInstantiation):
+        return M.Typedef(p_typename(it.typename), it.new_name)
+    if isinstance(it, parser.GlobalFunction):
+        return M.Func(p_ret(it.return_type, problems), it.name,
+                      p_args(it.args, problems), p_template(it.template))
+    if isinstance(it, parser.Enum):
+        if it.namespaces() != [''] + list(path):
+            problems.append("enum %s: namespaces() %r" % (it.name, it.namespaces()))
+        return p_enum(it)
+    if isinstance(it, parser.Variable):
+        return M.Var(p_type(it.ctype, problems), it.name, _default(it.default))
+    problems.append("unknown node in tree: %r" % (it,))
+    return None
+
+
 def p_content(ns, problems, path) -> Tuple:
     parser = _gt()
     out = []
@@ -143,29 +175,10 @@ def p_content(ns, problems, path) -> Tuple:
                 problems.append("namespace %s: full_namespaces() %r" % (it.name,
                                                                          it.full_namespaces()))
             out.append(M.Namespace(it.name, p_content(it, problems, sub)))
-        elif isinstance(it, parser.Class):
-            out.append(p_class(it, problems, path))
-        elif isinstance(it, parser.ForwardDeclaration):
-            if it.name != it.typename.name:
-                problems.append("forward declaration name %r vs typename %r" %
-                                (it.name, it.typename.name))
-            out.append(M.Fwd(p_typename(it.typename), bool(it.is_virtual),
-                             p_type(it.parent_type, problems) if it.parent_type else None))
-        elif isinstance(it, parser.Include):
-            out.append(M.Include(str(it.header)))
-        elif isinstance(it, parser.TypedefTemplateInstantiation):
-            out.append(M.Typedef(p_typename(it.typename), it.new_name))
-        elif isinstance(it, parser.GlobalFunction):
-            out.append(M.Func(p_ret(it.return_type, problems), it.name,
-                              p_args(it.args, problems), p_template(it.template)))
-        elif isinstance(it, parser.Enum):
-            if it.namespaces() != [''] + list(path):
-                problems.append("enum %s: namespaces() %r" % (it.name, it.namespaces()))
-            out.append(p_enum(it))
-        elif isinstance(it, parser.Variable):
-            out.append(M.Var(p_type(it.ctype, problems), it.name, _default(it.default)))
         else:
-            problems.append("unknown node in tree: %r" % (it,))
+            x = p_item(it, problems, path)
+            if x is not None:
+                out.append(x)
     return tuple(out)
 
 
